@@ -204,7 +204,7 @@ pub fn run_c16(env: &Env) -> Report {
                 s.finish(&mut t); s.events.clear();
             }
         }
-        for _ in 0..(if env.quick() { 40 } else { 600 }) {
+        for _ in 0..(if env.quick() { 120 } else { 600 }) {
             // phonetic texts: words, emoticons, emoji names, suffixed words
             let txt = match rng.below(6) { 0 => rng.pick(&pools.emoticons).clone(), 1 => rng.pick(&pools.emoji_names).clone(), 2 => format!("{}{}", pools.word(&mut rng), rng.pick(&pools.suffixes)), 3 => format!("\"{}\"", pools.word(&mut rng)), _ => pools.word(&mut rng) };
             if txt.chars().all(crate::code_ok) && txt.chars().count() < 22 {
@@ -268,7 +268,7 @@ pub fn run_c17(env: &Env) -> Report {
         let mut on = o; on.smart_quote = true; let mut off = o; off.smart_quote = false;
         let mut a = match Sess::new(&mut t, &env.data, "on", &layout, on, &xdg) { Some(s) => s, None => return rep };
         let mut b = match Sess::new(&mut t, &env.data, "off", &layout, off, &xdg) { Some(s) => s, None => return rep };
-        let nwords = if env.quick() { 2 } else { 12 };
+        let nwords = if env.quick() { 5 } else { 12 };
         for wi in 0..nwords {
             let word: String = if fixed { ["ka", "kh", "ok", "ki"][wi % 4].to_string() } else { match wi % 4 { 0 => pools.word(&mut rng), 1 => rng.pick(&pools.emoji_names).clone(), 2 => ["e", "a'b", "ki\"t", ":'(", ":\"D", "", "\\", "\\"][rng.below(8)].to_string(), _ => ["ami", "e", "kor", "sob"][rng.below(4)].to_string() } };
             if !word.chars().all(crate::code_ok) { continue; }
